@@ -149,6 +149,8 @@ def _mk_new_type(node, name, base_spec, abstract):
                 traits["is_differential"] = True
             if h % 11 == 3:
                 traits["is_evaluation"] = True
+            if h % 4 == 1:
+                body["_precedence"] = 2 + h % 7  # its own place in the printing precedence
         cls = type(name, (base,) if second is None else (base, second), body)
         cls = ufl_type(is_abstract=abstract, num_ops=1, **traits)(cls)
     elif kind == "geo":
@@ -697,6 +699,8 @@ def snapshot(x, cold=False):
             put("coeffs", lambda: [repr(a) for a in x.coefficients()])
     elif isinstance(x, dict):
         put("items", lambda: [(repr(k), repr(v)) for k, v in x.items()])
+    elif isinstance(x, (set, list)):
+        put("items", lambda: sorted(repr(v) for v in x) if isinstance(x, set) else [repr(v) for v in x])
     return s
 
 
@@ -728,7 +732,7 @@ def xop_snapall(node, op):
     for s in sorted(node.slots):
         if lo <= s < hi:
             x = node.slots[s]
-            if isinstance(x, (Expr, BaseForm, dict)):
+            if isinstance(x, (Expr, BaseForm, dict, set)):
                 out[str(s)] = snapshot(x, cold)
     return out
 
